@@ -8,7 +8,7 @@
    PARTIAL: completeness on D and "a well-formed string denotes the position it spells" are checked by the
    correspondence run (every pool FEN accepted in both notations; fields compared with an independent reading). *)
 From Coq Require Import NArith ZArith List Bool.
-From Rawr Require Import Consts Bits Magic Position MoveGen MakeMove Fen FenFacts ParityFacts FenRound FenCastle.
+From Rawr Require Import Consts Bits Magic Position MoveGen MakeMove Fen FenFacts ParityFacts FenRound FenCastle Abs ClosureNull DomainClosed FenDomain.
 Local Open Scope N_scope.
 
 Theorem C07_parse_validated : forall mode frc s q,
@@ -59,8 +59,21 @@ Theorem C07_printed_fen_of_a_reached_position_is_accepted : forall mode p, RTW p
   exists s q, get_fen p = Some s /\ set_fen mode (is_frc p) s = Some q.
 Proof. intros mode p H. destruct (fen_roundtrip_modulo_dead_files mode p H) as (s & H1 & H2). exists s, (norm_files p). split; assumption. Qed.
 
+(* ... and over the domain D itself: every position of D whose clocks fit into an i32, and every position reached from it by
+   generated moves and null moves (while the clocks stay in range), has its printed FEN accepted, yielding the same chess position *)
+Theorem C07_fen_of_every_position_of_D_is_accepted : forall mode p,
+  in_D p = true -> (halfmoves p <= I32_MAX)%Z -> (fullmoves p <= I32_MAX)%Z ->
+  exists s, get_fen p = Some s /\ set_fen mode (is_frc p) s = Some (norm_files p).
+Proof. exact fen_of_D_is_accepted. Qed.
+Theorem C07_fen_of_every_reached_position_is_accepted : forall mode os p, in_D p = true -> gen_ops p os ->
+  let q := fold_left play_op os p in (halfmoves q <= I32_MAX)%Z -> (fullmoves q <= I32_MAX)%Z ->
+  exists s, get_fen q = Some s /\ set_fen mode (is_frc q) s = Some (norm_files q).
+Proof. exact fen_of_reached_position_is_accepted. Qed.
+
 Print Assumptions C07_parse_validated.
 Print Assumptions C07_validate_sound.
 Print Assumptions C07_parse_consistent.
 Print Assumptions C07_printed_fen_is_accepted.
 Print Assumptions C07_printed_fen_of_a_reached_position_is_accepted.
+Print Assumptions C07_fen_of_every_position_of_D_is_accepted.
+Print Assumptions C07_fen_of_every_reached_position_is_accepted.
